@@ -1,4 +1,5 @@
 import Duckling.Model.Compile
+import Duckling.Lemmas.TabRound
 /-
   C03 — indentation alone determines block structure.
 
@@ -16,8 +17,15 @@ import Duckling.Model.Compile
                                   before it: no code line is dropped; `C03_code_line_kept` an unindented line is appended after the
                                   pending block (which is parsed recursively and attached to the preceding line);
   * `C03_list_form`              the nested-list input form bypasses the parser: its tree is the given tree.
-  The round-trip theorem (parse (render u b t) = t for every tree, unit and blank-line placement) is not yet
-  proved; that statement is validated by the correspondence on random trees in 11 units — `partial`.
+  * `C03_roundtrip`              **the round trip**: for every block tree (any depth, any size) whose lines are not blank, do not start
+                                  with a blank and are not triple-quote lines, every indent unit that is a non-empty string of spaces and
+                                  tabs, every numbering of the lines, and blank / whitespace-only lines inserted anywhere: if the non-blank
+                                  lines of the text are the rendering of the tree, `parse_document` returns exactly that tree (`toNodes`),
+                                  each line carrying the number it had in the text.  Hence the tree does not depend on the unit or on the
+                                  blank lines (`C03_unit_and_blank_independent`), and no code line is dropped or attached elsewhere;
+  * `C03_text_roundtrip`         the same for `Compiler.compile(text)`: numbers are the 1-based positions in the text.
+  The verbatim (triple-quote) form and the exact error for every ill-indented text (beyond the two rejection
+  theorems above) are validated by the correspondence.
 -/
 namespace Duckling.Props.C03
 open Duckling
@@ -70,6 +78,27 @@ theorem C03_code_line_kept (rec : ParseFn) (count : Nat) (l : PreLine) (st : PSt
          | .ok b => .ok { st with seen := true, conv := [], ret := .line l :: .block b :: st.ret }) := by
   simp only [stepLine, hnb, hq, hfree, htab, Bool.false_eq_true, if_false, Bool.false_and, bne_self_eq_false]
   split <;> rfl
+
+/-- the round trip of the indentation parser -/
+theorem C03_roundtrip (u : Str) (hu : GoodUnit u) (f : List NT) (hg : GoodForest f) (pls : List PreLine)
+    (hrender : pls.filter (fun l => !isBlank l.content) = lines u 0 f) :
+    parseFuel (pls.length + 1) pls none = .ok (toNodes f) :=
+  parse_roundtrip u hu f hg pls hrender
+
+/-- for source text: the lines are numbered by position, then parsed -/
+theorem C03_text_roundtrip (u : Str) (hu : GoodUnit u) (f : List NT) (hg : GoodForest f) (texts : List Str)
+    (hrender : (numberLines texts).filter (fun l => !isBlank l.content) = lines u 0 f) :
+    parseLines texts = .ok (toNodes f) := by
+  unfold parseLines
+  exact parse_roundtrip u hu f hg (numberLines texts) hrender
+
+/-- two renderings of the same tree — different units, different blank lines — parse to the same tree -/
+theorem C03_unit_and_blank_independent (u u' : Str) (hu : GoodUnit u) (hu' : GoodUnit u') (f : List NT) (hg : GoodForest f)
+    (pls pls' : List PreLine)
+    (h1 : pls.filter (fun l => !isBlank l.content) = lines u 0 f)
+    (h2 : pls'.filter (fun l => !isBlank l.content) = lines u' 0 f) :
+    parseFuel (pls.length + 1) pls none = parseFuel (pls'.length + 1) pls' none := by
+  rw [parse_roundtrip u hu f hg pls h1, parse_roundtrip u' hu' f hg pls' h2]
 
 theorem C03_list_form (t : List RawTree) : prepare (.tree t) = .ok (convertRecur t 0) := rfl
 
